@@ -19,6 +19,8 @@ LENGTHS = (0, 5, 24, 25, 144)
 TYPES = (1, 65, 127, 130, 255)
 PRE_TYPE = 99  # message type of the unicasts of a pre-history (filtered out of the judged queues)
 PRE_MSG = b"earlier message"
+BURST_MSG = b"burst"
+BURST_TYPE = 33
 _templates = {}
 
 
@@ -72,6 +74,19 @@ def run_case(case):
                 n.multicast(PRE_MSG, case["mtype"])
             else:
                 n.multicast(PRE_MSG, case["mtype"], case["level"])
+        elif op == "multicast-burst":
+            # another multicast (other type) immediately before the judged one: both are pending in
+            # a slowly polling receiver's RX FIFO when it calls update()
+            if case["level"] is None:
+                n.multicast(BURST_MSG, BURST_TYPE)
+            else:
+                n.multicast(BURST_MSG, BURST_TYPE, case["level"])
+        elif op.startswith("fill-queue:"):
+            # the application of this node has not read its queue for a while
+            for i in range(int(op.split(":")[1])):
+                fr = H.RF24NetworkFrame(H.RF24NetworkHeader(key, PRE_TYPE), b"unread %d" % i)
+                fr.header.from_node = O("5")
+                n.queue.enqueue(fr)
         elif op.startswith("unicast-same-type:"):
             # an earlier unicast of the same type to a node that will also hear the multicast
             n.send(H.RF24NetworkHeader(int(op.split(":")[1]), case["mtype"]), PRE_MSG)
@@ -97,11 +112,16 @@ def run_case(case):
         n = net.nodes[src]
         ctx.wait(1 * MS)
         for k, op in pre:
-            if k == src:
+            if k == src and op != "multicast-burst":
                 do_pre(src, op)
-        if pre:
+        burst = [op for k, op in pre if k == src and op == "multicast-burst"]
+        if pre and not burst:
             net.serve(ctx, src, max(1, delay - (w.now - net.built_at)), hook)
-        obs["t_mc"] = w.now
+        elif burst:
+            net.serve(ctx, src, max(1, delay - (w.now - net.built_at)), hook)
+            for _ in burst:
+                do_pre(src, "multicast-burst")
+        obs["t_mc"] = w.now if not burst else obs.get("t_burst", w.now)
         if case["level"] is None:
             obs["ret"] = n.multicast(msg, case["mtype"])
         else:
@@ -117,9 +137,12 @@ def run_case(case):
     net.run(scripts, idle_hook=hook)
     obs["aborted"] = w.aborted
     obs["exc"] = {k: type(e).__name__ + ": " + str(e)[:80] for k, e in net.exc.items()}
-    obs["queues"] = {k: [g for g in q if g[2] != PRE_TYPE and g[3] != PRE_MSG] for k, q in net.queues().items()}
+    allq = net.queues()
+    obs["burst_seen"] = {k: sum(1 for g in q if g[3] == BURST_MSG) for k, q in allq.items()}
+    obs["queues"] = {k: [g for g in q if g[2] != PRE_TYPE and g[3] != PRE_MSG and g[3] != BURST_MSG] for k, q in allq.items()}
+    obs["flushed_unread"] = {k: r.rx_flushed_unread for k, r in net.radios.items() if r.rx_flushed_unread}
     obs["msg"] = msg
-    air = [p for p in net.air() if p.start >= obs["t_mc"]]
+    air = [p for p in net.air() if p.start >= obs["t_mc"] and (p.is_ack or (N.parse_frame(p.payload) or {}).get("type") != BURST_TYPE)]
     obs["npkts"] = len(air)
     obs["acks"] = [(p.src.name, p.addr.hex()) for p in air if p.is_ack]
     obs["want_ack"] = [(p.src.name, p.addr.hex()) for p in air if not p.is_ack and p.want_ack]
@@ -153,6 +176,8 @@ def judge(case, obs, pid=PID):
     want = (src, 0o100, case["mtype"], msg)
     nfrag = (len(msg) + 23) // 24 if len(msg) > 24 else 1
     off = case["allow_off"]
+    full_nodes = {k for k, op in [tuple(x) for x in case.get("pre", [])] if op.startswith("fill-queue")}
+    has_burst = any(op == "multicast-burst" for _, op in [tuple(x) for x in case.get("pre", [])])
     relays = [r for r in case["relays"] if 1 <= N.level_of(r) <= 3 and r != off]
     exact = len(relays) <= 1  # with several relays re-broadcasts may collide: safety clauses only
     clean = obs["ncoll"] == 0 and not any(obs["overflow"].values())
@@ -186,6 +211,8 @@ def judge(case, obs, pid=PID):
             # (the sender is a node of level L or of another level like everybody else; whether a
             # sender of level L sees its own multicast is not specified and not judged)
             v.append(("%s/wrong-level:%s:got-L%d" % (pid, shape, lvl), "node %o (level %d) queued a multicast for level %d" % (key, lvl, L)))
+        if key in full_nodes:
+            continue  # its application queue was already full: nothing more can be queued there
         if key in direct and want not in q:
             # excused: RX FIFO overflow, collisions, and - for fragment bursts - a receiver that is
             # itself a relay (half duplex: it cannot hear fragment k+1 while re-broadcasting k)
@@ -193,6 +220,14 @@ def judge(case, obs, pid=PID):
                 v.append(("%s/missed:%s" % (pid, shape), "node %o of level %d did not receive the multicast (len %d)" % (key, L, len(msg))))
         if key in relayed and key not in direct and want not in q and clean and (nfrag == 1 or want in obs["queues"][relay_node]):
             v.append(("%s/relay-missed:%s" % (pid, shape), "node %o of level %d did not receive the multicast relayed by %o" % (key, lvl, relay_node)))
+    if obs.get("flushed_unread"):
+        k0 = sorted(obs["flushed_unread"])[0]
+        v.append(("%s/received-frames-discarded:%s" % (pid, shape), "node %o flushed %d received payload(s) out of its RX FIFO unread" % (k0, obs["flushed_unread"][k0])))
+    if has_burst and clean:
+        for key in direct:
+            if key not in full_nodes and obs["burst_seen"].get(key) != 1:
+                v.append(("%s/missed-burst:%s" % (pid, shape), "node %o queued the first multicast of a back-to-back pair %d times" % (key, obs["burst_seen"].get(key, 0))))
+                break
     if obs["acks"]:
         v.append(("%s/acknowledged:%s" % (pid, shape), "hardware ACK packet(s) on the air: %r" % obs["acks"][:3]))
     if obs["want_ack"]:
@@ -224,9 +259,9 @@ def judge(case, obs, pid=PID):
         if exact and clean and key == relay_node and (nfrag == 1 or want in obs["queues"][key]):
             if len(txs) != nfrag:
                 v.append(("%s/relay-count:%s" % (pid, shape), "relay %o re-broadcast %d packet(s) for %d received frame(s)" % (key, len(txs), nfrag)))
-            if want not in obs["queues"][key]:
+            if want not in obs["queues"][key] and key not in full_nodes:
                 v.append(("%s/relay-not-queued:%s" % (pid, shape), "relay %o did not queue the multicast for its own application" % key))
-    if relay_node is not None and clean and obs["names"][relay_node] not in obs["tx"] and want in obs["queues"][relay_node]:
+    if relay_node is not None and clean and obs["names"][relay_node] not in obs["tx"] and (want in obs["queues"][relay_node] or relay_node in full_nodes):
         v.append(("%s/relay-silent:%s" % (pid, shape), "relay %o of level %d received the multicast but did not re-broadcast it" % (relay_node, N.level_of(relay_node))))
     if sname not in obs["tx"] and not obs["aborted"] and src not in obs["exc"] and direct:
         v.append(("%s/not-transmitted:%s" % (pid, shape), "nothing was transmitted although level %d has other listening nodes" % L))
@@ -289,7 +324,8 @@ def build_items(tier, seed):
             relay_ok = 1 <= L <= 3
             pres = [[(recv, "unicast-ok")], [(recv, "unicast-fail")], [(recv, "rebegin")], [(src, "rebegin")], [(src, "unicast-ok")], [(src, "unicast-fail")],
                     [(recv, "unicast-fail"), (recv, "unicast-ok")], [(src, "unicast-ok"), (recv, "rebegin"), (recv, "unicast-ok")],
-                    [(src, "multicast-same-type")], [(src, "unicast-same-type:%d" % recv)], [(src, "multicast-same-type"), (src, "multicast-same-type")]]
+                    [(src, "multicast-same-type")], [(src, "unicast-same-type:%d" % recv)], [(src, "multicast-same-type"), (src, "multicast-same-type")],
+                    [(src, "multicast-burst")], [(recv, "fill-queue:6")], [(recv, "fill-queue:6"), (src, "multicast-burst")]]
             for pre in pres:
                 for relays in ([], [recv] if relay_ok else None):
                     if relays is None:
@@ -298,6 +334,9 @@ def build_items(tier, seed):
                     cases.append(dict(src=src, level=lvl, relays=list(relays), allow_off=None, mlen=(5, 25)[k % 2], mtype=TYPES[k % len(TYPES)],
                                       cost=(k // 2) % 4, lat=k % 2, seed=seed, id0=(k * 131) & 0xFFFF, pre=[list(x) for x in pre],
                                       mtype_fixed=True))
+                    if any(x[1] == "multicast-burst" for x in pre):
+                        cases[-1]["mlen"] = 5
+                        cases[-1]["lat"] = 2  # 2 ms poll latency: both frames are in the RX FIFO when update() runs
                     if any("same-type" in x[1] for x in pre):
                         cases[-1]["mtype"] = 7  # (a user type that is neither relayed specially nor network-acknowledged)
     return [cases[i:i + 25] for i in range(0, len(cases), 25)]
@@ -313,7 +352,7 @@ def run(tier, seed, rep, only=None):
         exhaustive=True,
         rule="every sender class (master, first child 0o1, another level-1 node, levels 2, 3, 4) x target level {default,0..4} x relay configuration "
              "(off / on at exactly one node of levels 1-3 / on everywhere) x allow_multicast off at one node x message length x timing classes on a "
-             "populated 5-level tree of 9 real nodes; plus 11 pre-histories (delivered / failed unicast, node-address re-assignment at sender, receiver, relay; earlier multicast / unicast of the same type not yet dequeued) "
+             "populated 5-level tree of 9 real nodes; plus 14 pre-histories (delivered / failed unicast, node-address re-assignment at sender, receiver, relay; earlier multicast / unicast of the same type not yet dequeued; back-to-back multicasts; a relay whose application queue is full) "
              "before the multicast; non-trivial = distinct case (every case transmits or must transmit).",
         bounds=dict(topology=["%o" % a for a in TOPO], senders=["%o" % a for a in SENDERS], levels=[str(x) for x in LEVELS], lengths=list(LENGTHS), types=list(TYPES)),
         trusted_base=["vf/sim.py", "vf/net.py"],
